@@ -34,6 +34,8 @@ type Case struct {
 	Fn   string   `json:"fn"`
 	Mode string   `json:"mode"`
 	Args []string `json:"args"`
+	// Bind: special variables rebound by a let around the call: name, value descriptor, name, ...
+	Bind []string `json:"bind,omitempty"`
 }
 
 func (c Case) String() string {
@@ -41,12 +43,17 @@ func (c Case) String() string {
 	if c.Mode == "r" {
 		m = " [raw forms]"
 	}
+	if len(c.Bind) > 0 {
+		m += " [let " + strings.Join(c.Bind, " ") + "]"
+	}
 	return "(" + c.Fn + " " + strings.Join(c.Args, " ") + ")" + m
 }
 
-func (c Case) key() string { return c.Fn + "\x00" + c.Mode + "\x00" + strings.Join(c.Args, "\x00") }
+func (c Case) key() string {
+	return c.Fn + "\x00" + c.Mode + "\x00" + strings.Join(c.Args, "\x00") + "\x01" + strings.Join(c.Bind, "\x00")
+}
 
-func (c Case) call() Call { return Call{Fn: c.Fn, Mode: c.Mode, Args: c.Args} }
+func (c Case) call() Call { return Call{Fn: c.Fn, Mode: c.Mode, Args: c.Args, Bind: c.Bind} }
 
 // ---------------------------------------------------------------------------------------------
 // Results obtained in batches are handed to Run through this table; a case that is not in it (a
@@ -402,10 +409,12 @@ func runViaShared(c Case) *h.Result {
 
 func TestC09(t *testing.T) {
 	h.Rule("(reader) batches of 1-16 byte strings, each either bytes biased to syntax bytes or 1-12 fragments of Lisp text (numbers in every radix form, #nA #n( #* #\\ #| #. #+ #: #n= #c #p, strings, |symbols|, quotes, commas, dots, broken UTF-8) with 0-3 byte mutations, read by slip.ReadString in a worker process; a batch is non-trivial when a text contains a syntax byte ( ) \" # ' ` , | ; \\ ; " +
-		"(call-0/1/2/n) every exported function of every package x tuples over a fixed pool of 50 representative objects (incl. the multi-byte strings λ, aλ, 日本語 and the indexes 2 3 4 8) built afresh for every call: " +
+		"(call-0/1/2/n) every exported function of every package x tuples over a fixed pool of 58 representative objects (incl. the multi-byte strings λ, aλ, 日本語, the indexes 2 3 4 8, most-positive/negative-fixnum, vectors whose fill pointer exceeds their length, a grown-and-shrunk array, bit-vectors made by coerce, make-array and the reader) built afresh for every call: " +
 		"0-, 1- and 2-tuples enumerated (2-tuples: a 1/16 slice in quick, all in thorough), 3- to 5-tuples drawn by rapid; macros also with the raw (unquoted) objects as forms; " +
 		"each call is evaluated as a form (FuncInfo.Create + Eval) in a worker process with stdin closed and a scratch cwd; non-trivial when some argument is outside the documented parameter type or beyond the documented parameters; distinct by (function, mode, argument tuple); " +
 		"(bounds-grid) every function that documents a start/end/index/n/count/size/position/offset/radix parameter, called with arguments of the documented types: one sequence-like parameter varied over its value set (strings \"\" abc λ aλ 日本語 λλa, lists, vectors, bit-vector, octets) x the product of up to two bound parameters over -1 0 1 2 3 4 8 nil (so reversed, negative, beyond-the-end and between-character-count-and-byte-length bounds), exhaustive, non-trivial when a bound other than 0/nil is present; " +
+		"(bounds-grid also: every function without bound parameters but with two sequence-like required parameters x all pairs of their value sets, e.g. the bit-* functions x 20 bit-vectors of lengths 0 4 8 9 made by the reader, coerce, make-array adjustable and not); " +
+		"(printer-grid) exhaustive: 17 printer variables x 26 values (nil t small large negative wrong-typed) bound by let around 28 format calls and 8 printer functions on 30 objects; (printer) rapid: one or two such bindings around a generated format call or a printer function; " +
 		"(call-typed) rapid: any function with every documented parameter drawn from the value set of its documented type (1/10 from the pool instead), optional and keyword parameters given or not; " +
 		"(format) control strings over the directive alphabet incl. unbalanced and hostile ones (prefix parameters <= 10000, every ~{ with a repetition limit) x pool arguments, non-trivial with >= 1 directive that has a prefix parameter. " +
 		"Oracle: the outcome is a value, a partial read, or a condition of a registered class; it is a fault when the panic is a Go runtime error (nil dereference, index, slice bounds, type assertion, unhashable key, nil map, closed channel, makeslice, divide), a Go value that is not a Lisp object, an argument check of a library below slip, " +
@@ -431,6 +440,7 @@ func TestC09(t *testing.T) {
 	}
 	testCalls(t, fns)
 	testTyped(t, fns)
+	testPrinter(t)
 	if part("format") {
 		testFormat(t)
 	}
